@@ -339,6 +339,8 @@ class Dense(ABC):
         ...
 
     def __getattr__(self, attr: str) -> Any:
+        #_row is not set while an instance is being unpickled or copied
+        if attr == '_row': raise AttributeError(attr)
         return getattr(self._row, attr)
 
     def __eq__(self, o) -> bool:
@@ -356,6 +358,8 @@ class Dense_:
     __slots__=('_row')
 
     def __getattr__(self, attr: str) -> Any:
+        #_row is not set while an instance is being unpickled or copied
+        if attr == '_row': raise AttributeError(attr)
         return getattr(self._row, attr)
 
     def __eq__(self, o) -> bool:
@@ -408,6 +412,8 @@ class Sparse(ABC):
         ...
 
     def __getattr__(self, attr: str) -> Any:
+        #_row is not set while an instance is being unpickled or copied
+        if attr == '_row': raise AttributeError(attr)
         return getattr(self._row, attr)
 
     def __eq__(self, o: object) -> bool:
@@ -425,6 +431,8 @@ class Sparse_:
     ##Therefore we keep Sparse around for public API checks but internally we use Sparse_ for inheritance.
 
     def __getattr__(self, attr: str) -> Any:
+        #_row is not set while an instance is being unpickled or copied
+        if attr == '_row': raise AttributeError(attr)
         return getattr(self._row, attr)
 
     def __eq__(self, o: object) -> bool:
